@@ -30,6 +30,12 @@ func (s Parser) ParseClaim(ctx context.Context,
 func (s Parser) GetFieldSlotIndex(field string, typeName string,
 	schemaBytes []byte) (int, error) {
 
+	// an unassigned slot has an empty path: an empty field name must not
+	// match it
+	if field == "" {
+		return -1, errors.New("field name is empty")
+	}
+
 	var ctxDoc any
 	err := json.Unmarshal(schemaBytes, &ctxDoc)
 	if err != nil {
